@@ -9,7 +9,7 @@
 
 static const char *ARM[] = { "setword", "setword", "setbyte", "set3", "hsfield", "hsfield", "hsfield", "flipbit", "flipbit", "trunc", "extend", "setlen", "setlen",
                              "type", "ver", "epoch", "seq", "dup", "drop", "swapnext", "refrag", "refrag", "grow", "grow", "grow", "shrink", "fragmove", "cutfront", "vecgrow", "vecgrow", "vecgrow" };
-static const char *INJ[] = { "garbage", "plain23", "replay", "reflect", "cross", "relabel", "alert", "hsmsg", "hsmsg", "ccs" };
+static const char *INJ[] = { "garbage", "plain23", "replay", "reflect", "cross", "relabel", "alert", "hsmsg", "hsmsg", "ccs", "ccs_tail" };
 static const int PMTUS[] = { 1500, 1500, 900, 600, 400 };
 
 static void add_fault(Rng &r, Plan &p, bool aead) {
@@ -137,6 +137,24 @@ static std::vector<Plan> c08_fixed(int tier) {
                         if (park) { p.ops.push_back(Op("steps", park)); }
                         p.ops.push_back(Op("arm", dir, var * 2 + 1, var & 1, park % 4, "fragmove"));     // the (park%4+1)-th next record: later fragments of a flight too
                         p.ops.push_back(Op("hs"));
+                        v.push_back(p);
+                    }
+                }
+            }
+        }
+    }
+    // a CCS record with a partial / lying handshake record header behind it, at every parking point and after completion (before any application data)
+    for (int ver = 0; ver < 5; ver++) {
+        for (int park = 0; park <= 9; park++) {
+            for (int dir = 0; dir < 2; dir++) {
+                for (int var = 0; var < 6; var++) {
+                    for (int ep = 0; ep < (ver >= 3 ? 3 : 1); ep++) {
+                        Plan p; p.seed = 83000 + (uint64_t) ((((ver * 10 + park) * 2 + dir) * 6 + var) * 3 + ep);
+                        p.cfg["ver"] = ver;
+                        if (ver == 2) { p.cfg["suite"] = TLS_AES_128_GCM_SHA256; p.cfg["sid_kind"] = KK_EC256; } else { p.cfg["suite"] = TLS_RSA_WITH_AES_128_CBC_SHA; }
+                        if (park < 9) { p.ops.push_back(Op("steps", park)); } else { p.ops.push_back(Op("hs")); }
+                        p.ops.push_back(Op("inject", dir, var, 0, ep, "ccs_tail"));
+                        p.ops.push_back(Op("hs")); p.ops.push_back(Op("send", dir, 20)); p.ops.push_back(Op("pump"));
                         v.push_back(p);
                     }
                 }
